@@ -95,6 +95,8 @@ func Check() *common.Check {
 	return &common.Check{
 		ID:    "C15",
 		Level: "exploration",
+		// every case is recorded before it runs: a fatal error or a hang of the worker is attributed to it
+		CrashSafe: true,
 		Rule: "every SELECT / set operation / INSERT / UPDATE / DELETE / MERGE statement of the sqlgen space (quick: without 3-operator shapes; thorough: all) that the parser accepts; the generator records every identifier it places with its role " +
 			"(table, column, function, alias, cte, string), names of different roles are drawn from disjoint families (t*, c*, f*/known functions, a*, w*, s*); each statement is also re-extracted under the one-lexeme-per-line lower-case layout; UNION ALL chains and AND / OR chains (a sub-query in the first / last operand) of 1..12, 49..51, 98..103, 140, 200, 300, 500 operands and IN sub-queries nested 1..99 deep, every branch / level with names of its own. " +
 			"distinct = distinct SQL text; non-trivial = at least two names of different roles placed",
